@@ -96,6 +96,7 @@ def run_case(case):
                 if not has(prev.pre_mem, prev.key) and len(prev.post_mem) <= len(prev.pre_mem):
                     flags['prefix_evict'] += 1
         # ---- round trip
+        before = _snapshot(sess)
         try:
             blob = dill.dumps(sess.f)
         except Exception as e:
@@ -109,7 +110,11 @@ def run_case(case):
         c0 = CloneSession(case, g0)
         fm, fa, fi = _snapshot(sess)
         gm, ga, gi = _snapshot(c0)
-        if not _same_state(fm, gm):
+        if not (_same_state(before[0], fm) and _same_state(fm, before[0]) and _same_state(before[1], fa) and _same_state(fa, before[1]) and before[2] == fi):
+            # serialising and restoring is an observation: the original's memory, statistics and the (shared) stored contents are what they were
+            out.append(Discrepancy('C20/%s/round-trip-changed-original-or-store' % algo, 'before: residents %r archive %r info %r ; after: %r %r %r' % (
+                sorted(map(repr, before[0] or {})), sorted(map(repr, before[1] or {})), before[2], sorted(map(repr, fm or {})), sorted(map(repr, fa or {})), fi)))
+        elif not _same_state(fm, gm):
             out.append(Discrepancy('C20/%s/clone-cache-contents-differ' % algo, '%r vs %r' % (fm, gm)))
         elif not _same_state(fa, ga):
             out.append(Discrepancy('C20/%s/clone-archive-contents-differ' % algo, '%r vs %r' % (fa, ga)))
